@@ -36,6 +36,8 @@ pub enum Ty {
     ByteVec,
     /// `&'a ByteSlice`
     ByteSliceRef,
+    /// `Cow<'a, ByteSlice>`: borrowed from the input under `b`, owned under `n` (the macros recognise it by its spelling)
+    CowByteSlice,
     VecOf(Box<Ty>),
     BoxOf(Box<Ty>),
     /// `BTreeMap<u8, T>`
@@ -138,7 +140,7 @@ impl Variant { pub fn enc(&self, e: &EnumDef) -> Encoding { self.encoding.unwrap
 
 pub fn ty_needs_lifetime(t: &Ty, u: &Universe) -> bool {
     match t {
-        Ty::Str | Ty::CowStr | Ty::BytesSlice | Ty::CowBytes | Ty::ByteSliceRef => true,
+        Ty::Str | Ty::CowStr | Ty::BytesSlice | Ty::CowBytes | Ty::ByteSliceRef | Ty::CowByteSlice => true,
         Ty::VecOf(x) | Ty::BoxOf(x) | Ty::MapU8(x) => ty_needs_lifetime(x, u),
         Ty::Struct(i) | Ty::Enum(i) | Ty::GenericInst(i) | Ty::GenericInstOpt(i) => def_needs_lifetime(&u.defs[*i], u),
         _ => false
@@ -155,7 +157,7 @@ pub fn def_needs_lifetime(d: &Def, u: &Universe) -> bool {
 /// The derive macros constrain the decode lifetime implicitly only for `&str` / `&[u8]` / `&ByteSlice`
 /// (and `Option`s of them); any other field type that mentions a lifetime has to be marked `#[b(..)]`.
 pub fn must_be_b(t: &Ty, u: &Universe) -> bool {
-    ty_needs_lifetime(t, u) && !matches!(t, Ty::Str | Ty::BytesSlice | Ty::ByteSliceRef | Ty::CowStr | Ty::CowBytes)
+    ty_needs_lifetime(t, u) && !matches!(t, Ty::Str | Ty::BytesSlice | Ty::ByteSliceRef | Ty::CowStr | Ty::CowBytes | Ty::CowByteSlice)
 }
 
 /// Can this type stand in an `Option<_>`-less field that is still "optional" (nil-capable)?
@@ -187,13 +189,13 @@ impl Default for GenCfg { fn default() -> Self { GenCfg { allow_lifetimes: true,
 
 fn leaf_ty(r: &mut Rng, cfg: &GenCfg) -> Ty {
     loop {
-        let t = match r.below(27) {
+        let t = match r.below(28) {
             0 => Ty::U8, 1 => Ty::U16, 2 => Ty::U32, 3 => Ty::U64, 4 => Ty::I8, 5 => Ty::I16, 6 => Ty::I32, 7 => Ty::I64,
             8 => Ty::Bool, 9 => Ty::Char, 10 => Ty::F32, 11 => Ty::F64, 12 | 13 => Ty::String, 14 => Ty::Str, 15 => Ty::CowStr,
             16 => Ty::BytesVec, 17 => Ty::BytesSlice, 18 => Ty::BytesArr4, 19 => Ty::CowBytes, 20 => Ty::ByteVec, 21 => Ty::ByteSliceRef,
-            22 => Ty::NilWith, 23 => Ty::NilFns, 24 => Ty::NilOwn, 25 => Ty::OptAlias, _ => if r.bool_() { Ty::NilOwnDec } else { Ty::NilOwnEnc }
+            22 => Ty::NilWith, 23 => Ty::NilFns, 24 => Ty::NilOwn, 25 => Ty::OptAlias, 26 => Ty::CowByteSlice, _ => if r.bool_() { Ty::NilOwnDec } else { Ty::NilOwnEnc }
         };
-        let lt = matches!(t, Ty::Str | Ty::CowStr | Ty::BytesSlice | Ty::CowBytes | Ty::ByteSliceRef);
+        let lt = matches!(t, Ty::Str | Ty::CowStr | Ty::BytesSlice | Ty::CowBytes | Ty::ByteSliceRef | Ty::CowByteSlice);
         if lt && !cfg.allow_lifetimes { continue }
         if (ty_has_nil(&t) || matches!(t, Ty::NilOwnDec | Ty::NilOwnEnc)) && !cfg.allow_custom { continue }
         if matches!(t, Ty::F32 | Ty::F64) && !cfg.allow_floats { continue }
@@ -230,9 +232,9 @@ fn contains_field_level_codec(t: &Ty) -> bool {
 
 fn sanitize(t: Ty) -> Ty {
     match t {
-        Ty::VecOf(x) => if contains_field_level_codec(&x) || matches!(*x, Ty::CowStr) { Ty::VecOf(Box::new(Ty::U16)) } else { Ty::VecOf(x) },
-        Ty::BoxOf(x) => if contains_field_level_codec(&x) || matches!(*x, Ty::CowStr | Ty::Str | Ty::ByteSliceRef) { Ty::BoxOf(Box::new(Ty::I32)) } else { Ty::BoxOf(x) },
-        Ty::MapU8(x) => if contains_field_level_codec(&x) || matches!(*x, Ty::CowStr) { Ty::MapU8(Box::new(Ty::String)) } else { Ty::MapU8(x) },
+        Ty::VecOf(x) => if contains_field_level_codec(&x) || matches!(*x, Ty::CowStr | Ty::CowByteSlice) { Ty::VecOf(Box::new(Ty::U16)) } else { Ty::VecOf(x) },
+        Ty::BoxOf(x) => if contains_field_level_codec(&x) || matches!(*x, Ty::CowStr | Ty::Str | Ty::ByteSliceRef | Ty::CowByteSlice) { Ty::BoxOf(Box::new(Ty::I32)) } else { Ty::BoxOf(x) },
+        Ty::MapU8(x) => if contains_field_level_codec(&x) || matches!(*x, Ty::CowStr | Ty::CowByteSlice) { Ty::MapU8(Box::new(Ty::String)) } else { Ty::MapU8(x) },
         o => o
     }
 }
@@ -270,7 +272,7 @@ fn gen_fields(r: &mut Rng, u: &Universe, cfg: &GenCfg, enc: Encoding, shape: Sha
         if all_optional && nil_capable { /* nil-capable counts as optional */ }
         if all_optional && ty == Ty::Param { ty = Ty::U8 }
         let tag = if r.chance(18) { Some(*r.pick(&TAGS)) } else { None };
-        let b = match ty { Ty::CowStr | Ty::CowBytes => r.chance(60), Ty::Str | Ty::BytesSlice | Ty::ByteSliceRef => r.chance(50), _ => must_be_b(&ty, u) };
+        let b = match ty { Ty::CowStr | Ty::CowBytes | Ty::CowByteSlice => r.chance(60), Ty::Str | Ty::BytesSlice | Ty::ByteSliceRef => r.chance(50), _ => must_be_b(&ty, u) };
         let fwd = if cfg.allow_custom && matches!(ty, Ty::U8 | Ty::U16 | Ty::U32 | Ty::U64 | Ty::I8 | Ty::I16 | Ty::I32 | Ty::I64 | Ty::Bool | Ty::Char | Ty::F32 | Ty::F64 | Ty::String | Ty::ByteVec) && r.chance(12) { 1 + r.below(3) as u8 }
                   // (a forwarding codec on a field of enum or struct type: with a codec in place the macros decide optionality and the
                   // handling of unknown variants from the field's syntactic type alone)
@@ -301,9 +303,9 @@ fn gen_struct(r: &mut Rng, u: &Universe, cfg: &GenCfg, name: String) -> StructDe
     if transparent {
         // (newtypes around the string and byte-string types - borrowed, Cow and owned, with and without a field-level codec -
         // are what transparent is mostly used for, and they take their own path through the macros: every second one)
-        let ty = if r.chance(50) { if cfg.allow_lifetimes { r.pick(&[Ty::CowStr, Ty::CowBytes, Ty::Str, Ty::BytesSlice, Ty::ByteSliceRef, Ty::BytesVec, Ty::BytesArr4, Ty::ByteVec, Ty::String, Ty::CowBytes, Ty::CowStr]).clone() } else { r.pick(&[Ty::BytesVec, Ty::BytesArr4, Ty::ByteVec, Ty::String]).clone() } } else { sanitize(field_ty(r, u, cfg, 1)) };
+        let ty = if r.chance(50) { if cfg.allow_lifetimes { r.pick(&[Ty::CowStr, Ty::CowBytes, Ty::Str, Ty::BytesSlice, Ty::ByteSliceRef, Ty::BytesVec, Ty::BytesArr4, Ty::ByteVec, Ty::String, Ty::CowBytes, Ty::CowStr, Ty::CowByteSlice, Ty::CowByteSlice]).clone() } else { r.pick(&[Ty::BytesVec, Ty::BytesArr4, Ty::ByteVec, Ty::String]).clone() } } else { sanitize(field_ty(r, u, cfg, 1)) };
         let ty = if contains_field_level_codec(&ty) && ty_has_nil(&ty) { Ty::U32 } else { ty };
-        let b = (matches!(ty, Ty::CowStr | Ty::CowBytes) && r.chance(60)) || must_be_b(&ty, u);
+        let b = (matches!(ty, Ty::CowStr | Ty::CowBytes | Ty::CowByteSlice) && r.chance(60)) || must_be_b(&ty, u);
         return StructDef { name, shape, encoding: None, tag: None, transparent: true, generic: false,
                            fields: vec![Field { idx: r.below(3) as u32, b, optional: r.chance(20) && !can_encode_null(&ty, u), ty, tag: None, skip: false, name: "inner".into(), long_attr: false, fwd: 0 }] }
     }
@@ -393,7 +395,7 @@ fn new_optional_field(r: &mut Rng, u: &Universe, cfg: &GenCfg, fields: &[Field],
     if ty == Ty::Param { ty = Ty::U8 }
     if !ty_has_nil(&ty) && can_encode_null(&ty, u) { ty = Ty::U8 }
     let tag = if r.chance(35) { Some(*r.pick(&TAGS)) } else { None };
-    let b = match ty { Ty::CowStr | Ty::CowBytes => r.chance(60), Ty::Str | Ty::BytesSlice | Ty::ByteSliceRef => r.chance(50), _ => must_be_b(&ty, u) };
+    let b = match ty { Ty::CowStr | Ty::CowBytes | Ty::CowByteSlice => r.chance(60), Ty::Str | Ty::BytesSlice | Ty::ByteSliceRef => r.chance(50), _ => must_be_b(&ty, u) };
     let nil = ty_has_nil(&ty);
     Field { idx: fresh_index(r, fields, enc, also_used), b, ty, optional: !nil, tag, skip: false, name, long_attr: r.chance(25), fwd: 0 }
 }
@@ -663,7 +665,7 @@ pub fn respell(r: &mut Rng, base: &Universe, prefix: &str) -> Universe {
 
 fn flip_b(r: &mut Rng, f: &mut Field) {
     // n <-> b where lifetimes allow: only types that carry a lifetime may be marked b
-    if matches!(f.ty, Ty::Str | Ty::BytesSlice | Ty::ByteSliceRef | Ty::CowStr | Ty::CowBytes) && r.chance(70) { f.b = !f.b }
+    if matches!(f.ty, Ty::Str | Ty::BytesSlice | Ty::ByteSliceRef | Ty::CowStr | Ty::CowBytes | Ty::CowByteSlice) && r.chance(70) { f.b = !f.b }
 }
 
 // ---- build-time driver ----------------------------------------------------------------------------
